@@ -32,11 +32,10 @@ Definition week_rel (sh : shape) (wk i : Z) : Z * Z * Z :=
 Definition week_matches (sh : shape) (wk i n : Z) : bool :=
   let '(_, w, nw) := week_rel sh wk i in (n =? w) || (n =? w - nw - 1).
 
-(* what rebuild() passes to build_wnomask for a year of this shape (year >= 2) *)
-Definition shape_linfo (sh : shape) : res (Z * Z) :=
-  Ok ((sh_ywd sh - sh_lylen sh) mod 7, sh_lylen sh).
+(* what rebuild() passes to build_wnomask for a year of this shape *)
 Definition shape_mask (sh : shape) (wk : Z) (bwn : list Z) : res (list Z) :=
-  build_wnomask_core (shape_linfo sh) (sh_ylen sh) (sh_ywd sh) wk (py_from T_WDAYMASK (sh_ywd sh)) bwn.
+  build_wnomask_core (sh_lylen sh) (sh_nylen sh) (sh_ylen sh) (sh_ywd sh) wk
+                     (py_from T_WDAYMASK (sh_ywd sh)) bwn.
 
 Definition nz (v : Z) : bool := negb (v =? 0).
 
